@@ -518,9 +518,16 @@ def run(ctx):
         for it in imp["items"]:
             b = F.bodies.get((AG, it.get("uid") or it["def"]))
             if b and any(c.name == "merge" for c in b.calls()):
-                guards.append(b)
+                guards.append((b, b))
+            elif b:
+                # the take-and-merge may be delegated to one private helper of the shared guard state, called once on every path
+                for c in b.calls():
+                    for hb in local_callee_bodies(F, c):
+                        if hb.crate == AG and hb.kind != "Closure" and any(x.name == "merge" for x in hb.calls()) and \
+                                exactly_once(b, [c.bb])[0] and len([x for x in b.calls() if x.def_ == c.def_]) == 1:
+                            guards.append((b, hb))
     ctx.floor("R10.6", "merge-on-drop destructors", len(guards), 2)
-    for b in guards:
+    for b0, b in guards:
         class S(Sim):
             def on_call(self_, t, bb, a, env):
                 c = t.get("callee", {})
@@ -536,6 +543,6 @@ def run(ctx):
             continue
         some = [a[1] for _, a, _ in s.returns if a[0] == "some"]
         none = [a[1] for _, a, _ in s.returns if a[0] == "none"]
-        ctx.check(some and all(x == 1 for x in some) and all(x == 0 for x in none), "R10.6", fnkey(b) + "#take-then-merge-once", loc(b),
+        ctx.check(some and all(x == 1 for x in some) and all(x == 0 for x in none), "R10.6", fnkey(b0) + "#take-then-merge-once", loc(b),
                   "destructor merges %s time(s) when it holds a value and %s when not" % (sorted(set(some)), sorted(set(none))))
     return EXPL
